@@ -96,8 +96,7 @@ Definition by_items_step (fixed : bool) (ds : list tdim) (st : list column * lis
 
 Definition by_items (fixed : bool) (ds : list tdim) (cols : list column) (dimcols : list nat) : list column * list nat :=
   let others := filter (fun c => negb (memb (e_raw (fst c)) dimcols)) cols in
-  if fixed && Nat.ltb 1 (length others)
-     && existsb (fun d => negb (memb (td_name d) dimcols) && same_items (map fst others) d) ds
+  if fixed && existsb (fun d => negb (memb (td_name d) dimcols) && same_items (map fst others) d) ds
   then (cols, dimcols)
   else fold_left (by_items_step fixed ds) (seq 0 (length cols)) (cols, dimcols).
 
